@@ -14,7 +14,8 @@ CONSTANTS Depth,        \* 1 or 2
           FullFaults,   \* TRUE: error and panic at every position; FALSE: error everywhere, panic at the first and last
           Emit,         \* print records
           Family,       \* "shapes" (C07 / C14 / C15) or "assign" (C06)
-          ChainLen      \* assign family: longest statement chain
+          ChainLen,     \* assign family: longest statement chain
+          Mutators      \* shapes family: some handlers write to the context they are evaluated in
 HID == <<"h1", "h2", "h3", "h4", "h5", "h6", "h7", "h8", "h9", "h10", "h11", "h12", "h13", "h14", "h15", "h16">>
 NAME == <<"n1", "n2", "n3", "n4", "n5", "n6", "n7", "n8", "n9", "n10", "n11", "n12">>
 LeafIdx(h) == CHOOSE i \in 1..16 : HID[i] = h
@@ -78,7 +79,8 @@ Faults(L) == {NoFault} \cup {<<k, "err">> : k \in 1..(L + 1)} \cup
 EnvOf(L, script, fault) ==
   [handlers |-> [h \in {HID[i] : i \in 1..16} |->
                    [ret |-> IF \E i \in 1..L : HID[i] = h THEN VBool(script[CHOOSE i \in 1..L : HID[i] = h])
-                            ELSE IF h = "h11" THEN VInt(7) ELSE IF h = "h10" THEN VInt(5) ELSE VBool(TRUE), act |-> "lockctx"]],
+                            ELSE IF h = "h11" THEN VInt(7) ELSE IF h = "h10" THEN VInt(5) ELSE VBool(TRUE), act |-> "lockctx",
+                    copy |-> IF ~Mutators THEN <<>> ELSE IF h = "h2" THEN <<"x", "y">> ELSE IF h = "h5" THEN <<"n12", "x">> ELSE IF h = "h11" THEN <<"n1", "g">> ELSE <<>>]],
    gfun |-> ("G" :> "h11") @@ ("x" :> "h10"), gprefix |-> ("upre" :> "h13"), gpostfix |-> ("upost" :> "h14"),
    ginfix |-> ("uin" :> <<"h15", "CALC">>) @@ ("uasg" :> <<"h16", "SETTER">>), fault |-> fault]
 CtxOf(L) == [nm \in {NAME[i] : i \in 1..L} \cup {"n12", "x"} |->
@@ -134,6 +136,7 @@ Init == IF Family = "assign" THEN AssignInit ELSE IF Family = "dispatch" THEN Di
 VALToJson(st, v) == IF st = "ok" THEN v ELSE <<"none">>
 CtxToJson(c) == LET names == {nm \in DOMAIN c : TRUE} IN [nm \in names |-> c[nm]]
 Record == [prog |-> prog, ctx0 |-> CtxToJson(ctx0), handlers |-> [h \in DOMAIN env.handlers |-> env.handlers[h].ret],
+           copies |-> [h \in {k \in DOMAIN env.handlers : HandlerCopy(env, k) # <<>>} |-> HandlerCopy(env, h)],
            gfun |-> env.gfun, gprefix |-> env.gprefix, gpostfix |-> env.gpostfix, ginfix |-> env.ginfix, fault |-> env.fault,
            st |-> status, val |-> VALToJson(status, IF status = "ok" THEN vals[1] ELSE VNone), ctx |-> CtxToJson(ctx), log |-> LogProj]
 Next == \/ MStep
